@@ -17,6 +17,7 @@ fn main() {
         eprintln!("usage: replay harness <name> <hex,hex,...> | replay <subcommand> ...");
         std::process::exit(2);
     }
+    std::panic::set_hook(Box::new(|_| {}));
     match args[1].as_str() {
         "harness" => {
             let name = &args[2];
